@@ -6,6 +6,8 @@ import (
 	"go/token"
 	"go/types"
 	"strings"
+
+	"golang.org/x/tools/go/ssa"
 )
 
 func init() { register("C19", checkC19) }
@@ -232,6 +234,67 @@ func checkC19(w *World, r *Report) {
 
 	r.Rule("R19.6", "no error is forgotten while decoding or encoding: in data/encoding every error result bound to a variable is examined", 1)
 	r.guard("R19.6", func() { errRule(w, r, "R19.6", []string{"data/encoding"}, nil) })
+
+	r.Rule("R19.7", "readers store the identity spelling the validator compares: the field of schema.Identity that identityref.Validate compares with the value is the only Identity field a reader in data/encoding stores as a decoded value", 1)
+	r.guard("R19.7", func() {
+		vf := w.SSAFunc(w.Method("schema", "identityref", "Validate"))
+		if vf == nil {
+			panic(undecided{"schema.identityref.Validate"})
+		}
+		isIdentity := func(t types.Type) bool {
+			if p, ok := t.(*types.Pointer); ok {
+				t = p.Elem()
+			}
+			n, ok := t.(*types.Named)
+			return ok && n.Obj().Name() == "Identity" && n.Obj().Pkg() != nil && n.Obj().Pkg().Name() == "schema"
+		}
+		fieldLoad := func(v ssa.Value) string {
+			u, ok := v.(*ssa.UnOp)
+			if !ok || u.Op != token.MUL {
+				return ""
+			}
+			fa, ok := u.X.(*ssa.FieldAddr)
+			if !ok || !isIdentity(fa.X.Type()) {
+				return ""
+			}
+			return fa.X.Type().(*types.Pointer).Elem().Underlying().(*types.Struct).Field(fa.Field).Name()
+		}
+		cmpField := ""
+		for _, b := range vf.Blocks {
+			for _, in := range b.Instrs {
+				if bo, ok := in.(*ssa.BinOp); ok && bo.Op == token.EQL {
+					for _, side := range []ssa.Value{bo.X, bo.Y} {
+						if f := fieldLoad(side); f != "" {
+							cmpField = f
+						}
+					}
+				}
+			}
+		}
+		if cmpField == "" {
+			panic(undecided{"identityref.Validate: compared Identity field"})
+		}
+		n := 0
+		for _, f := range allFuncs(w.SSAPkg("data/encoding")) {
+			for _, b := range f.Blocks {
+				for _, in := range b.Instrs {
+					st, ok := in.(*ssa.Store)
+					if !ok {
+						continue
+					}
+					fld := fieldLoad(st.Val)
+					if fld != "Val" && fld != "Value" {
+						continue // only the two spellings of the identity's name are at stake (module, namespace, … are other data)
+					}
+					n++
+					r.Check(fld == cmpField, "R19.7", funcKey(f)+" stores Identity."+fld, st.Pos(), "the field identityref.Validate compares ("+cmpField+")", "the reader stores Identity."+fld+" as the decoded value, but validation (and the other readers) use Identity."+cmpField+": an identity of another module decodes to a value that is rejected or names a different identity")
+				}
+			}
+		}
+		if n == 0 {
+			r.OK("R19.7", "no reader stores an Identity field", token.NoPos, "compared field is "+cmpField)
+		}
+	})
 
 	r.Rule("R19.5", "the JSON writer emits well-formed, faithfully escaped text: every string-like value goes through json.Marshal (no hand-written quoting), and in every arm of the child encoder the '[' / '{' written are closed on every path", 6)
 	r.guard("R19.5", func() {
